@@ -119,7 +119,8 @@ PROPS["C04"] = dict(
           "audio every 4th) published to media.Stream (RTP path, or FLV tags through WriteFlvTag) with four consumers attached: healthy, "
           "stalled (blocks inside Consume at PRNG delivery counts, released when the publisher reaches PRNG indices; long and short stalls), "
           "slow (sleeps per packet), panicking (k-th delivery). Distinct by (G, path, cache, number of stalls)"
-          ' Patterns alternate H.264 and H.265 streams; a third of them start shortly below 2^32 so that the RTP timestamp wraps a few hundred packets in'),
+          ' Patterns alternate H.264 and H.265 streams; a third of them start shortly below 2^32 so that the RTP timestamp wraps a few hundred packets in'
+          ' FLV pipeline part (c04_flvpipe.go): a stalled and a healthy FLV consumer behind RTP -> depacketiser -> FLV muxer, one stream per key-picture kind (H.264 IDR; H.265 IDR_W_RADL, IDR_N_LP, BLA, CRA), key picture every 25/50/120 packets, stall released at two thirds of the publication: queue within limit + GOP + header tags, gaps begin and end at key pictures'),
     level_text=("Runtime monitor over the real per-consumer queues: publisher completion (goroutine state decides on watchdog), healthy record exact, "
                 "stalled queue length sampled after every write against 1000+G, gap alignment of the stalled record to key-frame starts, "
                 "panicking consumer detached and closed"),
